@@ -91,7 +91,7 @@ func seqnoInvalid(seqno, reference uint16) bool {
 
 // set sets a bit in the bitmap, shifting if necessary
 func (bitmap *bitmap) set(seqno uint16) {
-	if !bitmap.valid || seqnoInvalid(seqno, bitmap.first) {
+	if !bitmap.valid {
 		bitmap.first = seqno
 		bitmap.bitmap = 1
 		bitmap.valid = true
@@ -163,6 +163,8 @@ func (cache *Cache) Store(seqno uint16, timestamp uint32, keyframe bool, marker 
 		cache.lastValid = true
 		cache.expected++
 		cache.received++
+		// restart the loss bitmap together with the statistics
+		cache.bitmap.valid = false
 	} else {
 		cmp := compare(cache.last, seqno)
 		if cmp < 0 {
